@@ -34,7 +34,8 @@ TRUSTED = [
     "validate_temporal_relations, bool(HedString)) is NOT modelled: it is a Section variable of every theorem and is "
     "supplied by the implementation itself in the correspondence run",
     "abstraction done by the harness: cell text -> id, 'empty or n/a' flag, Delay unit spelling class from the schema's "
-    "derivative_units tables, times as integers in microseconds (generated onsets are dyadic, sub-second Delay units "
+    "derivative_units tables, times as integers in microseconds (generated onsets are dyadic or decimal strings with up "
+    "to 6 decimals read exactly with fractions.Fraction -- never through a narrow float --, sub-second Delay units "
     "are generated only where no near-collision can occur); assembled cell texts are taken from the implementation's "
     "dataframe_a on the unsorted table (assembly itself is property C06)",
     "pandas: sort_values(kind='quicksort') is modelled as a stable sort (numpy uses insertion sort below 17 elements; "
@@ -185,6 +186,21 @@ def classify_delay(ext):
     return (0, cls, False)
 
 
+def onset_us(text):
+    """exact value of an onset cell in microseconds (None = not a number).  Decimal texts are read exactly with
+    fractions.Fraction -- generated onsets have at most 6 decimals --, never through float32/float64 rounding."""
+    f = to_float(text)
+    if f is None or f != f or f in (float("inf"), float("-inf")):
+        return None
+    try:
+        q = Fraction(text.strip()) * 10**6
+        if q.denominator == 1:
+            return int(q)
+    except (ValueError, ZeroDivisionError):
+        pass
+    return rnd_us(f)
+
+
 def in_range(p):
     return p == 0 or 1e-6 <= abs(p) <= 1e9
 
@@ -280,8 +296,7 @@ def describe(case, rows, shared=None):
         onset = None
         if has_onset:
             o = str(raw["onset"].iloc[k])
-            f = to_float(o)
-            onset = None if (f is None or f != f) else rnd_us(f)
+            onset = onset_us(o)
         out_rows.append({"onset": onset, "cells": cl, "bad": bad, "dtext": dtext, "delays": delays, "series": s})
     return {"rows": out_rows, "cats": [colrank[c] for c in cats], "texts": {v: k for k, v in texts.items()},
             "basic": dict(basic), "pre": pre, "npost": npost, "colname": {v: k for k, v in colrank.items()},
@@ -878,6 +893,30 @@ def fmt_onset(x):
     return repr(float(x))
 
 
+def fine_onsets(rng, n):
+    """n distinct onsets as DECIMAL STRINGS that are hard for narrow floats: large magnitudes with tiny differences
+    (equal in float32/float16, distinct in float64), many significant digits, values around powers of two and ten.
+    All differences are below 0.5 s, so no Delay shift (>= 0.5 s) can make two effective times coincide."""
+    kind = rng.choice(["late", "digits", "pow2", "pow10"])
+    if kind == "late":
+        base = Fraction(rng.choice([1234, 3600, 7200, 9999, 43200, 86399])) + Fraction(rng.randrange(0, 10**4), 10**4)
+    elif kind == "digits":
+        base = Fraction(rng.randrange(10**8, 10**10), 10**6)            # e.g. 1234.567851
+    elif kind == "pow2":
+        base = Fraction(2) ** rng.choice([10, 11, 12, 13, 16, 20, 24]) - Fraction(rng.choice([0, 1, 3, 50]), 10**5)
+    else:
+        base = Fraction(10) ** rng.choice([3, 4, 5, 6, 7]) - Fraction(rng.choice([0, 1, 2, 70]), 10**5)
+    delta = Fraction(1, rng.choice([10**5, 10**5, 2 * 10**4, 10**4, 10**3]))
+    steps = rng.sample(range(0, 40), n)
+    out = []
+    for s in steps:
+        q = base + s * delta
+        ip, fp = divmod(q * 10**6, 10**6)
+        txt = f"{int(ip)}.{int(fp):06d}".rstrip("0")
+        out.append(txt + "0" if txt.endswith(".") else txt)
+    return out
+
+
 def unit_spellings(rng, kind):
     """kind: 'int' integer-factor units (exact), 'sub' milli/micro, 'nofactor', 'bad', 'case'"""
     tab = unit_table()
@@ -922,11 +961,13 @@ def gen_hed_cell(rng, profile):
     if x < 0.57:
         return rng.choice(INVALID_CELLS) if profile != "valid" else rng.choice(VALID_CELLS)
     if x < 0.65:
-        return rng.choice(ROWLEVEL_CELLS)
+        return rng.choice(TEMPORAL_CELLS if profile == "fine" else ROWLEVEL_CELLS)
     if x < 0.78:
         return rng.choice(TEMPORAL_CELLS)
     if x < 0.93:
         k = "int" if profile in ("valid", "exact") and rng.random() < 0.8 else None
+        if profile == "fine":    # no sub-second units: an effective time must not fall between two close onsets
+            k = rng.choices(["int", "case", "nofactor", "bad", "nounit", "nan"], [55, 15, 8, 8, 7, 7])[0]
         c = delay_cell(rng, k)
         if rng.random() < 0.3:
             c = rng.choice(VALID_CELLS) + ", " + c
@@ -934,12 +975,12 @@ def gen_hed_cell(rng, profile):
             c = c + ", " + delay_cell(rng, "int")
         return c
     if x < 0.97:
-        return delay_cell(rng, rng.choice(["int", "case", "sub", "nofactor"]), tag="Duration")
+        return delay_cell(rng, rng.choice(["int", "case", "sub", "nofactor"]), tag="Duration")   # never converted
     return rng.choice(VALID_CELLS) + ", " + rng.choice(VALID_CELLS + INVALID_CELLS)
 
 
 def gen_case(rng, tier):
-    profile = rng.choices(["mixed", "valid", "exact", "tsv"], [55, 20, 15, 10])[0]
+    profile = rng.choices(["mixed", "valid", "exact", "tsv", "fine"], [45, 16, 12, 9, 18])[0]
     sidecar = rng.choices(["plain", "refs", "badref"], [70, 22, 8])[0]
     has_onset = rng.random() < 0.85
     hedc = rng.choice([["HED"], ["cat"], ["val"], ["HED", "cat"], ["HED", "val"], ["cat", "val"], ["HED", "cat", "val"],
@@ -954,13 +995,19 @@ def gen_case(rng, tier):
     onsets = rng.sample(range(0, 200), n)     # up to 24.875 s: string order differs from numeric order
     if rng.random() < 0.45:
         onsets.sort()
+    onset_texts = [fmt_onset(o / 8.0) for o in onsets]
+    if profile == "fine":
+        onset_texts = fine_onsets(rng, n)
+        if rng.random() < 0.3:
+            onset_texts.sort(key=Fraction)
     na_onset = has_onset and rng.random() < 0.08
+    related = rng.random() < (0.6 if profile == "fine" else 0.15)
     rows = []
     for k in range(n):
         r = []
         for c in cols:
             if c == "onset":
-                r.append("n/a" if (na_onset and rng.random() < 0.4) else fmt_onset(onsets[k] / 8.0))
+                r.append("n/a" if (na_onset and rng.random() < 0.4) else onset_texts[k])
             elif c == "HED":
                 r.append(gen_hed_cell(rng, profile))
             elif c == "cat":
@@ -971,6 +1018,15 @@ def gen_case(rng, tier):
                 r.append(rng.choice(["1", "junk", "n/a"]))
         if profile == "tsv":
             r = [x if x != "" else "n/a" for x in r]
+        if related and rng.random() < 0.75:      # markers of ONE definition: their time order matters
+            if "HED" in cols:
+                r[cols.index("HED")] = rng.choice(["(Def/MyDef, Onset)", "(Def/MyDef, Offset)", "(Def/MyDef, Inset)",
+                                                   "(Def/MyDef, Offset), Red", "(Def/mydef, Onset)",
+                                                   "(Delay/1 s, Def/MyDef, Onset)", "(Delay/2 s, Def/MyDef, Offset)",
+                                                   "(Delay/0.5 s, Def/MyDef, Offset)", "(Delay/3 seconds, Def/MyDef, Inset)",
+                                                   "(Def/MyDef, Onset), (Delay/1.5 s, Def/MyDef, Offset)"])
+            elif "cat" in cols:
+                r[cols.index("cat")] = rng.choice(["d", "e", "e"])
         rows.append(r)
     if n <= 3 and rng.random() < 0.5:
         perms = [list(p) for p in itertools.permutations(range(n))][1:]
@@ -1080,6 +1136,9 @@ def corpus():
     mk([["1.0", "(Delay/2 s,(Red))", "a", "x"], ["2.0", "Blue", "b", "n/a"]], perms=[[1, 0]])
     mk([["0.0", "(Delay/1 s, Def/MyDef, Onset)", "n/a", "n/a"], ["0.5", "(Def/MyDef, Offset)", "n/a", "n/a"],
         ["2.0", "(Def/MyDef, Offset)", "n/a", "n/a"]], perms=[[2, 1, 0], [1, 0, 2]])
+    # onsets late in a recording that differ by 10 microseconds (equal as float32), out of time order
+    mk([["5000.00002", "(Def/MyDef, Offset)", "n/a", "n/a"], ["5000.00001", "(Def/MyDef, Onset)", "n/a", "n/a"],
+        ["5000.00003", "(Def/MyDef, Offset)", "n/a", "n/a"]], perms=[[1, 0, 2], [2, 1, 0], [0, 2, 1]])
     mk([["Red, Red", "a"], ["(Def/MyDef, Onset)", "b"], ["(Red", "c"]], cols=("HED", "cat"))
     mk([["1.0", "(Red", "a", "x"], ["2.0", "Nonsense", "a", "n/a"]], perms=[[1, 0]])
     mk([["1.0", "(Red", "Blue)", "x"]], cols=("onset", "HED", "val", "cat"))
@@ -1202,7 +1261,9 @@ def run(tier, seed, res, model_ok=True, proof_ok=True):
         "evaluations": evaluations,
         "distinct_nontrivial": len(distinct),
         "rule": "corpus (witnesses of C07-F2..F4 and of the repaired C07-F1/F5, regressions) + every time-unit spelling in Delay/Duration groups + "
-                f"{ngen} random tables (1-6 rows, 1-3 HED-bearing columns, sidecar with categorical/value columns, "
+                f"{ngen} random tables (1-6 rows, 1-3 HED-bearing columns, sidecar with categorical/value columns, onsets either small "
+                "dyadic numbers or (18%) decimal strings with large magnitude / tiny differences / many digits / near powers of 2 "
+                "and 10, compared exactly as integers of microseconds, "
                 "optionally curly-brace references) each with up to 5 row permutations (all permutations for half of "
                 "the tables with <=3 rows) + "
                 f"{len(hcases)} histories on ONE input object (validate / read the assembled frame / set_cell with a "
